@@ -20,6 +20,7 @@ def factsParams (n : Nat) : Params :=
     perStart := Bpmn.Gen.C02.monitorPerStartWith.getD true
     sigCap := Bpmn.Gen.C02.waitSignalCap.getD 0
     subBuf := Bpmn.Gen.C02.subscribeBufCap.getD 10
+    detached := Bpmn.Gen.C02.boundaryEndTraceDetached.getD true
     n := n }
 
 def kv (ws : List String) (key : String) : Option String :=
@@ -33,13 +34,40 @@ def isStartNode (id : String) : Bool :=
 
 /-! ## (b) lock-step replay -/
 
+/-- what the goroutine running `StartAll` passes, in order: its instructions and the `process.startwith.*` schedule
+points of /repo (layout of `StartWith`: with `subBefore` the monitor is created first) -/
+inductive Ev
+  | instr (i : SI)
+  | hook (name : String)
+deriving DecidableEq, Repr
+
+def startWithEvents (P : Params) (withMonitor : Bool) : List Ev :=
+  let monitor : List Ev := if withMonitor then [.instr .subscribe, .instr .lock] else []
+  if P.subBefore then
+    monitor ++ [.hook "after_monitor", .hook "before_trigger", .instr .trigger, .hook "after_trigger"]
+  else
+    [.hook "before_trigger", .instr .trigger, .hook "after_trigger"] ++ monitor ++ [.hook "after_monitor"]
+
+def eventsFrom (P : Params) : Nat → Nat → List Ev
+  | _, 0 => []
+  | i, k + 1 => startWithEvents P (P.perStart || i == 0) ++ eventsFrom P (i + 1) k
+
+def events (P : Params) : List Ev := eventsFrom P 0 P.n
+
+def instrsOf (evs : List Ev) : List SI := evs.filterMap fun e => match e with | .instr i => some i | _ => none
+
 structure LS where
   m : St
-  held : Bool := false
+  evs : List Ev := []                -- what `StartAll`'s goroutine still has to pass
+  started : Bool := false
+  holds : List String := []          -- schedule points currently held by the harness
+  parked : Option String := none     -- the starter is parked at this held point
+  lagArmed : Bool := false
   heldHelper : Option Nat := none
   undecided : List Nat := []         -- tiny-timeout calls whose outcome is not known yet: their helper is not run
   owedTrue : List Nat := []          -- calls that returned true before the recorder had caught up
-  lateSub : Bool := false            -- variant: the starter is parked after Trigger until the start trace went out
+  delay : Nat := 0                   -- variant: after its next Trigger the starter lags behind by this many traces
+  countdown : Option Nat := none
   waitIdx : List (Nat × Nat) := []   -- call id ↦ index in the model
   waitTmo : List (Nat × String) := []
   announced : List String := []      -- flow ids announced as forked children by a FlowTrace
@@ -49,31 +77,43 @@ structure LS where
 def LS.choices (ls : LS) : List Choice :=
   (internalChoices ls.m).filter fun c =>
     match c with
-    | .starter => !ls.held
+    | .starter => false
+    | .strayTrace => false
     | .helper w => ls.heldHelper != some w && !ls.undecided.contains w
     | _ => true
+
+/-- the starter runs on until it parks at a held point, blocks, lags, or returns -/
+def advance (P : Params) : Nat → LS → LS
+  | 0, ls => ls
+  | fuel + 1, ls =>
+    if !ls.started || ls.parked.isSome || ls.countdown.isSome then ls else
+    match ls.evs with
+    | [] => ls
+    | .hook h :: r =>
+      if ls.holds.contains h then { ls with parked := some h, evs := r } else advance P fuel { ls with evs := r }
+    | .instr i :: r =>
+      let m' := step P ls.m .starter
+      if m' = ls.m then ls else
+        let ls := { ls with m := m', evs := r }
+        if i == .trigger && ls.lagArmed && ls.delay > 0 then
+          { ls with lagArmed := false, countdown := some ls.delay }
+        else advance P fuel ls
 
 def settleLS (P : Params) : Nat → LS → LS
   | 0, ls => ls
   | fuel + 1, ls =>
-    let m' := ls.choices.foldl (step P) ls.m
-    if m' = ls.m then ls else settleLS P fuel { ls with m := m' }
+    let ls1 := advance P (ls.evs.length + 1) ls
+    let m' := ls1.choices.foldl (step P) ls1.m
+    if m' = ls1.m && ls1.evs.length == ls.evs.length then ls1 else settleLS P fuel { ls1 with m := m' }
 
-def fuelFor (ls : LS) : Nat := 60 + 8 * ls.m.waits.length + 4 * ls.m.mons.length
+def fuelFor (ls : LS) : Nat := 60 + 8 * ls.m.waits.length + 4 * ls.m.mons.length + ls.evs.length
 
 def LS.settle (P : Params) (ls : LS) : LS := settleLS P (fuelFor ls) ls
 
+/-- `StartAll` has returned -/
+def LS.returned (ls : LS) : Bool := ls.started && ls.evs.isEmpty && ls.parked.isNone
+
 def LS.diff (ls : LS) (d : String) : LS := { ls with diffs := d :: ls.diffs }
-
-/-- run the starter until `stop` holds or it cannot move -/
-def starterUntil (P : Params) (stop : St → Bool) : Nat → St → St
-  | 0, m => m
-  | fuel + 1, m =>
-    if stop m then m else
-      let m' := step P m .starter
-      if m' = m then m else starterUntil P stop fuel m'
-
-def executed (P : Params) (m : St) : Nat := (program P).length - m.prog.length
 
 /-- an environment choice the history demands; it must be enabled in the model -/
 def LS.env (P : Params) (ls : LS) (c : Choice) (what : String) : LS :=
@@ -84,7 +124,7 @@ def LS.env (P : Params) (ls : LS) (c : Choice) (what : String) : LS :=
 
 def flowIds (lst : String) : List String := (commaList lst).map fun x => (x.splitOn ":").headD ""
 
-def LS.trace (P : Params) (ls : LS) (ws : List String) : LS :=
+def LS.trace1 (P : Params) (ls : LS) (ws : List String) : LS :=
   match ws with
   | ["instantiation"] => ls
   | ["cease"] =>
@@ -97,35 +137,38 @@ def LS.trace (P : Params) (ls : LS) (ws : List String) : LS :=
     ls.env P .other s!"newflow {f}"
   | ["flow", node, lst] =>
     let ls := { ls with announced := ls.announced ++ (flowIds lst) }
-    if isStartNode node then
-      let ls := ls.env P .startTrace s!"flow {node}"
-      if ls.lateSub then { ls with held := false, lateSub := false }.settle P else ls
+    if isStartNode node then ls.env P .startTrace s!"flow {node}"
     else ls.env P .other s!"flow {node}"
+  | ["boundary", "1", _] =>
+    -- sent by the activity's own goroutine while the token waits for it; that goroutine then forwards the answer and
+    -- (fact `detached`) announces the end of the boundary phase on its own
+    let ls := ls.env P .other "boundary 1"
+    if P.detached then ls.env P .spawnStray "activity goroutine" else ls
+  | ["boundary", "0", node] =>
+    if P.detached then ls.env P .strayTrace s!"boundary 0 {node}" else ls.env P .other s!"boundary 0 {node}"
   | ["term", f, node] =>
     let ls := if isStartNode node then ls.env P .startTrace s!"term {f} {node}" else ls.env P .other s!"term {f} {node}"
     ls.env P .death s!"end of token {f}"
   | k :: _ => ls.env P .other k
   | [] => ls
 
+/-- one observed trace; afterwards a lagging starter may catch up -/
+def LS.trace (P : Params) (ls : LS) (ws : List String) : LS :=
+  let ls := ls.trace1 P ws
+  match ls.countdown with
+  | some (k + 1) => if k == 0 then { ls with countdown := none }.settle P else { ls with countdown := some k }
+  | _ => ls
+
 def LS.widx (ls : LS) (id : Nat) : Option Nat := (ls.waitIdx.find? (·.1 == id)).map (·.2)
 
 def LS.line (P : Params) (scen : String) (ls : LS) (ws : List String) : LS :=
   match ws with
-  | "op" :: "startall" :: rest =>
-    let hold := (kv rest "hold").getD ""
-    let fuel := 4 * (program P).length + 4
-    if hold == "after_trigger" then
-      { ls with m := starterUntil P (fun m => m.triggered ≥ 1) fuel ls.m, held := true }
-    else if hold == "after_monitor" then
-      let l0 := (startWithAt P 0).length
-      let stop : St → Bool :=
-        if scen == "slow2" then fun m => executed P m ≥ l0 && m.prog.head? == some SI.trigger
-        else fun m => m.triggered ≥ 2
-      { ls with m := starterUntil P stop fuel ls.m, held := true }
-    else if ls.lateSub then
-      { ls with m := starterUntil P (fun m => m.triggered ≥ 1) fuel ls.m, held := true }
-    else ls.settle P
-  | "op" :: "release" :: _ => { ls with held := false }.settle P
+  | "op" :: "hold" :: pt :: _ => { ls with holds := pt :: ls.holds }
+  | "op" :: "startall" :: _ => { ls with started := true, lagArmed := scen == "free" }.settle P
+  | "op" :: "release" :: pt :: _ =>
+    let ls := { ls with holds := ls.holds.erase pt, parked := if ls.parked == some pt then none else ls.parked,
+                        lagArmed := pt == "before_trigger" }
+    ls.settle P
   | "op" :: "wait" :: id :: phase :: tmo :: _ =>
     match id.toNat? with
     | none => ls
@@ -140,8 +183,8 @@ def LS.line (P : Params) (scen : String) (ls : LS) (ws : List String) : LS :=
   | "op" :: _ => ls.settle P
   | "obs" :: "startall" :: res :: _ =>
     let ls := ls.settle P
-    if res == "returned" && !ls.m.returned then ls.diff "StartAll returned; the model's starter is still blocked"
-    else if res == "blocked" && ls.m.returned then ls.diff "StartAll blocked at quiescence; the model's starter has returned"
+    if res == "returned" && !ls.returned then ls.diff "StartAll returned; the model's starter is still blocked"
+    else if res == "blocked" && ls.returned then ls.diff "StartAll blocked at quiescence; the model's starter has returned"
     else ls
   | "obs" :: "wait" :: id :: rest =>
     match id.toNat?, kvNat rest "ret" with
@@ -171,8 +214,8 @@ def LS.line (P : Params) (scen : String) (ls : LS) (ws : List String) : LS :=
       if (ls.m.waits[w]?.map (·.caller)) == some CPc.gotTrue then ls
       else ls.diff s!"a wait (model index {w}) returned true; the model's caller never gets true on this history") ls
     match kv rest "startall" with
-    | some "returned" => if !ls.m.returned then ls.diff "final: StartAll returned; model blocked" else ls
-    | some "blocked" => if ls.m.returned then ls.diff "final: StartAll blocked; model returned" else ls
+    | some "returned" => if !ls.returned then ls.diff "final: StartAll returned; model blocked" else ls
+    | some "blocked" => if ls.returned then ls.diff "final: StartAll blocked; model returned" else ls
     | _ => ls
   | "obs" :: "hold" :: _ => ls
   | "obs" :: "noquiesce" :: _ => ls
@@ -180,8 +223,14 @@ def LS.line (P : Params) (scen : String) (ls : LS) (ws : List String) : LS :=
   | "obs" :: t => ls.trace P t
   | _ => ls
 
-def replay (P : Params) (scen : String) (late : Bool) (lines : List (List String)) : LS :=
-  lines.foldl (LS.line P scen) { m := init P, lateSub := late }
+def replay (P : Params) (scen : String) (delay : Nat) (lines : List (List String)) : LS :=
+  lines.foldl (LS.line P scen) { m := init P, evs := events P, delay := delay }
+
+/-- the start-up race is not pinned by the history in free runs and after the release of a `StartWith` that was held
+BEFORE its Trigger: try every lag of the starter behind the token's traces; the smallest one that explains the
+history wins -/
+def searchDelay (P : Params) (scen : String) (lines : List (List String)) (maxDelay : Nat) : Option Nat :=
+  (List.range (maxDelay + 1)).find? fun d => (replay P scen d lines).diffs.isEmpty
 
 /-! ## (a) the property on the implementation's history -/
 
@@ -257,18 +306,19 @@ def check (params lines : List String) : CaseResult := Id.run do
   if !h.bad.isEmpty then return { bad := h.bad }
   if h.n != n then return { bad := [s!"prog starts {h.n} vs params {n}"] }
   let P := factsParams n
+  if instrsOf (events P) != program P then return { bad := ["driver: events do not project to the model's program"] }
   let manyMonitors := P.monitorsPerStartAll > 1
   let mut r : CaseResult := {}
   -- ---- lock-step
   let pinned := scen != "free" || !manyMonitors
   let mut explainedByLateSub := false
   if pinned then
-    let ls := replay P scen false toks
-    if !ls.diffs.isEmpty && scen == "free" && n == 1 && !P.subBefore then
-      -- the only other start-up schedule of a single start event: the monitor subscribes after the start's trace
-      let ls2 := replay P scen true toks
-      if ls2.diffs.isEmpty then explainedByLateSub := true
-      else r := { r with diffs := ls.diffs }
+    let ls := replay P scen 0 toks
+    if !ls.diffs.isEmpty && (scen == "free" || scen == "slow2") then
+      let ntr := (toks.filter fun ws => ws.head? == some "obs").length
+      match searchDelay P scen toks ntr with
+      | some _ => explainedByLateSub := scen == "free"
+      | none => r := { r with diffs := ls.diffs }
     else r := { r with diffs := ls.diffs }
   -- ---- the property on the implementation's history
   let add (r : CaseResult) (s : String) : CaseResult := { r with specs := s :: r.specs }
@@ -276,8 +326,14 @@ def check (params lines : List String) : CaseResult := Id.run do
     r := add r (if manyMonitors then s!"cease_twice_second_monitor: cease-flow trace emitted {h.ceasePos.length} times ({n} start events, one monitor per StartWith)"
                 else s!"cease_twice: cease-flow trace emitted {h.ceasePos.length} times")
   let late := h.afterCease.filter (· != "cease")
-  if !late.isEmpty then
-    r := add r s!"cease_not_last: {late.length} flow traces after the cease-flow trace, first: {late.headD ""}"
+  let lateBoundary := late.filter (·.startsWith "boundary 0 ")
+  let lateOther := late.filter (fun t => !t.startsWith "boundary 0 ")
+  if !lateOther.isEmpty then
+    r := add r s!"cease_not_last: {lateOther.length} flow traces after the cease-flow trace, first: {lateOther.headD ""}"
+  if !lateBoundary.isEmpty then
+    r := add r (if P.detached then
+        s!"boundary_end_trace_after_cease: {lateBoundary} recorded after the cease-flow trace (sent by the activity's goroutine after it forwarded the answer)"
+      else s!"cease_not_last: {lateBoundary} after the cease-flow trace")
   if !h.ceaseWithOpen.isEmpty then
     r := add r s!"cease_with_pending_task: cease-flow trace while {h.ceaseWithOpen} unanswered"
   for w in h.waits do
